@@ -108,7 +108,9 @@ mutual
     | .member tok obj prop c, cw, h => by
       simp only [Expr.complete, Bool.and_eq_true] at h
       simp only [writeExpr]
-      split <;> simp [ok_writeExpr prop _ h.2, ok_writeExpr obj _ h.1]
+      split
+      · simp [ok_writeExpr prop _ h.2, ok_writeExpr obj _ h.1]
+      · split <;> simp [ok_writeExpr prop _ h.2, ok_writeExpr obj _ h.1]
     | .assign tok l v, cw, h => by
       simp only [Expr.complete, Bool.and_eq_true] at h
       simp [writeExpr, ok_writeExpr v _ h.2, ok_writeExpr l _ h.1]
